@@ -722,4 +722,556 @@ theorem repr_rebuild {R : List RObj} {P : List Pod} (dl : Deliverable R P) :
     exact ⟨ht, r, hr, o, by simpa using ho, hor⟩)
   simpa [rebuild] using i2
 
+
+/-! ### two caches representing the same surviving objects are observationally equal -/
+
+theorem InfoEq.symm {a b : Info} (h : InfoEq a b) : InfoEq b a :=
+  ⟨h.rid.symm, h.node.symm, h.once.symm, h.decl.symm, fun d => (h.alloc d).symm, h.pods.symm⟩
+
+theorem InfoEq.trans {a b c : Info} (h : InfoEq a b) (g : InfoEq b c) : InfoEq a c :=
+  ⟨h.rid.trans g.rid, h.node.trans g.node, h.once.trans g.once, h.decl.trans g.decl,
+    fun d => (h.alloc d).trans (g.alloc d), h.pods.trans g.pods⟩
+
+theorem OptInfoEq.symm {a b : Option Info} (h : OptInfoEq a b) : OptInfoEq b a := by
+  cases a <;> cases b <;> simp_all [OptInfoEq]
+  exact InfoEq.symm h
+
+theorem OptInfoEq.trans {a b c : Option Info} (h : OptInfoEq a b) (g : OptInfoEq b c) : OptInfoEq a c := by
+  cases a <;> cases b <;> cases c <;> simp_all [OptInfoEq]
+  exact InfoEq.trans h g
+
+theorem CacheEq.symm {c₁ c₂ : Cache} (h : CacheEq c₁ c₂) : CacheEq c₂ c₁ :=
+  ⟨fun r => (h.infos r).symm, fun x => (h.onNode x).symm, fun x => (h.allocOn x).symm⟩
+
+theorem CacheEq.trans {c₁ c₂ c₃ : Cache} (h : CacheEq c₁ c₂) (g : CacheEq c₂ c₃) : CacheEq c₁ c₃ :=
+  ⟨fun r => (h.infos r).trans (g.infos r), fun x => (h.onNode x).trans (g.onNode x),
+    fun x => (h.allocOn x).trans (g.allocOn x)⟩
+
+theorem nodup_of_keys {l : List (Nat × Req)} (h : (l.map Prod.fst).Nodup) : l.Nodup :=
+  List.Pairwise.of_map Prod.fst (fun _ _ hne e => hne (e ▸ rfl)) h
+
+theorem repr_pods_perm {c₁ c₂ : Cache} {s₁ s₂ : Objs} (i₁ : Repr c₁ s₁) (i₂ : Repr c₂ s₂)
+    (hS : ∀ p, assignedAlive p = true → (p ∈ s₁.pods ↔ p ∈ s₂.pods))
+    {r : Nat} {a b : Info} (ha : c₁.get r = some a) (hb : c₂.get r = some b) : a.pods.Perm b.pods := by
+  refine (List.perm_ext_iff_of_nodup (nodup_of_keys (i₁.wf r a ha).nodup) (nodup_of_keys (i₂.wf r b hb).nodup)).mpr ?_
+  intro x
+  obtain ⟨pid, q⟩ := x
+  rw [i₁.pods r a ha pid q, i₂.pods r b hb pid q]
+  have hal : ∀ p : Pod, p.rid = some r → p.term = false → assignedAlive p = true := by
+    intro p h1 h2; simp [assignedAlive, h1, h2]
+  constructor
+  · rintro ⟨p, hp, h1, h2, h3, h4⟩; exact ⟨p, (hS p (hal p h3 h4)).mp hp, h1, h2, h3, h4⟩
+  · rintro ⟨p, hp, h1, h2, h3, h4⟩; exact ⟨p, (hS p (hal p h3 h4)).mpr hp, h1, h2, h3, h4⟩
+
+theorem repr_infoEq {c₁ c₂ : Cache} {s₁ s₂ : Objs} (i₁ : Repr c₁ s₁) (i₂ : Repr c₂ s₂)
+    (hR : ∀ o, o ∈ s₁.resvs ↔ o ∈ s₂.resvs)
+    (hS : ∀ p, assignedAlive p = true → (p ∈ s₁.pods ↔ p ∈ s₂.pods)) (r : Nat) :
+    OptInfoEq (c₁.get r) (c₂.get r) := by
+  cases ha : c₁.get r with
+  | none =>
+    cases hb : c₂.get r with
+    | none => trivial
+    | some b =>
+      obtain ⟨o, ho, hor, _⟩ := i₂.spec r b hb
+      exact absurd hor ((i₁.dom r).mp ha o ((hR o).mpr ho))
+  | some a =>
+    cases hb : c₂.get r with
+    | none =>
+      obtain ⟨o, ho, hor, _⟩ := i₁.spec r a ha
+      exact absurd hor ((i₂.dom r).mp hb o ((hR o).mp ho))
+    | some b =>
+      obtain ⟨o1, ho1, hr1, hn1, hc1, hd1⟩ := i₁.spec r a ha
+      obtain ⟨o2, ho2, hr2, hn2, hc2, hd2⟩ := i₂.spec r b hb
+      obtain ⟨e1, e2, e3⟩ := i₂.resvFn o1 ((hR o1).mp ho1) o2 ho2 (hr1.trans hr2.symm)
+      have hperm := repr_pods_perm i₁ i₂ hS ha hb
+      have hdecl : a.decl = b.decl := hd1.symm.trans (e3.trans hd2)
+      refine ⟨(get_rid ha).trans (get_rid hb).symm, hn1.symm.trans (e1.trans hn2), hc1.symm.trans (e2.trans hc2),
+        hdecl, fun d => ?_, hperm⟩
+      rw [(i₁.wf r a ha).exact d, (i₂.wf r b hb).exact d, hdecl, sumMasked_perm hperm]
+
+theorem allocOn_half {c₁ c₂ : Cache} {s₁ s₂ : Objs} (i₁ : Repr c₁ s₁) (i₂ : Repr c₂ s₂) {n r : Nat}
+    (he : OptInfoEq (c₁.get r) (c₂.get r)) (h : (n, r) ∈ c₁.allocOn) : (n, r) ∈ c₂.allocOn := by
+  obtain ⟨a, ha, hn, ho, hp⟩ := (i₁.allocOn n r).mp h
+  rw [ha] at he
+  cases hb : c₂.get r with
+  | none => rw [hb] at he; exact he.elim
+  | some b =>
+    rw [hb] at he
+    have he : InfoEq a b := he
+    refine (i₂.allocOn n r).mpr ⟨b, hb, he.node.symm.trans hn, he.once.symm.trans ho, ?_⟩
+    intro e; have hpp := he.pods; rw [e] at hpp; exact hp hpp.eq_nil
+
+theorem repr_cacheEq {c₁ c₂ : Cache} {s₁ s₂ : Objs} (i₁ : Repr c₁ s₁) (i₂ : Repr c₂ s₂)
+    (hR : ∀ o, o ∈ s₁.resvs ↔ o ∈ s₂.resvs)
+    (hS : ∀ p, assignedAlive p = true → (p ∈ s₁.pods ↔ p ∈ s₂.pods)) : CacheEq c₁ c₂ := by
+  have hinfo := repr_infoEq i₁ i₂ hR hS
+  refine ⟨hinfo, ?_, ?_⟩
+  · rintro ⟨n, r⟩
+    rw [i₁.onNode n r, i₂.onNode n r]
+    constructor
+    · rintro ⟨o, ho, h⟩; exact ⟨o, (hR o).mp ho, h⟩
+    · rintro ⟨o, ho, h⟩; exact ⟨o, (hR o).mpr ho, h⟩
+  · rintro ⟨n, r⟩
+    exact ⟨allocOn_half i₁ i₂ (hinfo r), allocOn_half i₂ i₁ (hinfo r).symm⟩
+
+/-! ### the theorems -/
+
+/-- the survivors of a well-formed history can be delivered to a fresh scheduler. -/
+theorem survivors_deliverable (h : List Ev) (wf : wfHist h = true) {R : List RObj} {P : List Pod}
+    (hR : R.Perm (survivors h).1) (hP : P.Perm (survivors h).2) : Deliverable R P := by
+  have i := repr_live h wf
+  refine ⟨?_, ?_, ?_⟩
+  · exact (hR.pairwise_iff (fun hab => fun e => hab e.symm)).mpr i.resvPw
+  · exact (hP.pairwise_iff (fun hab => fun e => hab e.symm)).mpr (i.podsPw.filter _)
+  · intro p hp
+    have hp' := hP.mem_iff.mp hp
+    simp only [survivors, List.mem_filter, assignedAlive, Bool.and_eq_true, Bool.not_eq_true',
+      Option.isSome_iff_exists] at hp'
+    obtain ⟨hps, ht, r, hr⟩ := hp'
+    obtain ⟨o, ho, hor⟩ := i.known p hps ht r hr
+    exact ⟨ht, r, hr, o, hR.mem_iff.mpr ho, hor⟩
+
+/-- **cache_rebuilt_eq_live** — for EVERY well-formed history `h` of cache-level events on the live
+scheduler (several reservations on several nodes, pods added / updated / re-assigned / un-assigned /
+terminated / deleted), the live cache is observationally equal to the cache a fresh scheduler rebuilds
+from the survivors: all surviving Reservations first (ANY order `R`), then one add event per surviving
+pod assignment (ANY order `P`).  Order hypothesis: every Reservation is delivered before the pods
+assigned to it (`rebuild` delivers all Reservations first). -/
+theorem cache_rebuilt_eq_live (h : List Ev) (wf : wfHist h = true) (R : List RObj) (P : List Pod)
+    (hR : R.Perm (survivors h).1) (hP : P.Perm (survivors h).2) :
+    CacheEq (live h) (rebuild R P) := by
+  have i₁ := repr_live h wf
+  have i₂ := repr_rebuild (survivors_deliverable h wf hR hP)
+  refine repr_cacheEq i₁ i₂ ?_ ?_
+  · intro o
+    simp only [List.mem_reverse]
+    exact hR.mem_iff.symm
+  · intro p hp
+    simp only [List.mem_reverse]
+    rw [hP.mem_iff]
+    simp [survivors, hp]
+
+
+theorem Deliverable.perm {R₁ R₂ : List RObj} {P₁ P₂ : List Pod} (dl : Deliverable R₁ P₁)
+    (hR : R₁.Perm R₂) (hP : P₁.Perm P₂) : Deliverable R₂ P₂ := by
+  refine ⟨?_, ?_, ?_⟩
+  · exact (hR.pairwise_iff (fun hab => fun e => hab e.symm)).mp dl.resvPw
+  · exact (hP.pairwise_iff (fun hab => fun e => hab e.symm)).mp dl.podsPw
+  · intro p hp
+    obtain ⟨ht, r, hr, o, ho, hor⟩ := dl.alive p (hP.mem_iff.mpr hp)
+    exact ⟨ht, r, hr, o, hR.mem_iff.mp ho, hor⟩
+
+/-- **cache_rebuild_order_independent** — the whole rebuilt cache does not depend on the order in which
+the informers deliver the Reservations among themselves and the pods among themselves (distinct UIDs,
+every pod live and annotated with a delivered Reservation). -/
+theorem cache_rebuild_order_independent {R₁ R₂ : List RObj} {P₁ P₂ : List Pod} (dl : Deliverable R₁ P₁)
+    (hR : R₁.Perm R₂) (hP : P₁.Perm P₂) : CacheEq (rebuild R₁ P₁) (rebuild R₂ P₂) := by
+  refine repr_cacheEq (repr_rebuild dl) (repr_rebuild (dl.perm hR hP)) ?_ ?_
+  · intro o; simp only [List.mem_reverse]; exact hR.mem_iff
+  · intro p _; simp only [List.mem_reverse]; exact hP.mem_iff
+
+/-- the same for the survivors of a well-formed history. -/
+theorem cache_rebuild_order_independent_hist (h : List Ev) (wf : wfHist h = true) {R₁ R₂ : List RObj}
+    {P₁ P₂ : List Pod} (hR₁ : R₁.Perm (survivors h).1) (hP₁ : P₁.Perm (survivors h).2)
+    (hR₂ : R₂.Perm (survivors h).1) (hP₂ : P₂.Perm (survivors h).2) :
+    CacheEq (rebuild R₁ P₁) (rebuild R₂ P₂) :=
+  cache_rebuild_order_independent (survivors_deliverable h wf hR₁ hP₁) (hR₁.trans hR₂.symm) (hP₁.trans hP₂.symm)
+
+/-- the (uid, requests) entries of the live pods of `P` annotated with reservation `rid`. -/
+def assignedTo (P : List Pod) (rid : Nat) : List (Nat × Req) :=
+  (P.filter (fun p => !p.term && p.rid == some rid)).map (fun p => (p.pid, p.q))
+
+theorem assignedTo_perm {P₁ P₂ : List Pod} (h : P₁.Perm P₂) (rid : Nat) : (assignedTo P₁ rid).Perm (assignedTo P₂ rid) :=
+  (h.filter _).map _
+
+theorem repr_pods_assignedTo {c : Cache} {s : Objs} (i : Repr c s) {rid : Nat} {ri : Info} (hg : c.get rid = some ri) :
+    ri.pods.Perm (assignedTo s.pods rid) := by
+  have nd2 : (assignedTo s.pods rid).Nodup := by
+    unfold assignedTo
+    refine List.Pairwise.map _ ?_ (i.podsPw.filter _)
+    intro a b hab e
+    exact hab (congrArg Prod.fst e)
+  refine (List.perm_ext_iff_of_nodup (nodup_of_keys (i.wf rid ri hg).nodup) nd2).mpr ?_
+  rintro ⟨pid, q⟩
+  rw [i.pods rid ri hg pid q]
+  simp only [assignedTo, List.mem_map, List.mem_filter, Bool.and_eq_true, Bool.not_eq_true', beq_iff_eq,
+    Prod.mk.injEq]
+  constructor
+  · rintro ⟨p, hp, h1, h2, h3, h4⟩; exact ⟨p, ⟨hp, h4, h3⟩, h1, h2⟩
+  · rintro ⟨p, ⟨hp, h4, h3⟩, h1, h2⟩; exact ⟨p, hp, h1, h2, h3, h4⟩
+
+/-- in a cache that represents the objects, Allocated of every ReservationInfo is the sum of the masked
+requests of the live pods annotated with it. -/
+theorem repr_allocated_eq_sum {c : Cache} {s : Objs} (i : Repr c s) {o : RObj} (ho : o ∈ s.resvs) :
+    ∃ ri, c.get o.rid = some ri ∧ ri.node = o.node ∧ ri.once = o.once ∧ ri.decl = o.decl ∧
+      ∀ d, ri.allocated d = sumMasked o.decl d (assignedTo s.pods o.rid) := by
+  cases hg : c.get o.rid with
+  | none => exact absurd rfl ((i.dom o.rid).mp hg o ho)
+  | some ri =>
+    obtain ⟨o', ho', hr', hn', hc', hd'⟩ := i.spec _ _ hg
+    obtain ⟨e1, e2, e3⟩ := i.resvFn o' ho' o ho hr'
+    have hdecl : ri.decl = o.decl := hd'.symm.trans e3
+    refine ⟨ri, rfl, hn'.symm.trans e1, hc'.symm.trans e2, hdecl, fun d => ?_⟩
+    rw [(i.wf _ _ hg).exact d, hdecl, sumMasked_perm (repr_pods_assignedTo i hg)]
+
+/-- **cache_allocated_eq_sum** — nothing reserved-and-taken is free after the restart: for every surviving
+Reservation the rebuilt cache holds a ReservationInfo with the Reservation's spec whose Allocated is, at
+every dimension, the sum of the masked requests of the surviving pods assigned to it. -/
+theorem cache_allocated_eq_sum (h : List Ev) (wf : wfHist h = true) (R : List RObj) (P : List Pod)
+    (hR : R.Perm (survivors h).1) (hP : P.Perm (survivors h).2) :
+    ∀ o ∈ (survivors h).1, ∃ ri, (rebuild R P).get o.rid = some ri ∧ ri.node = o.node ∧ ri.once = o.once ∧
+      ri.decl = o.decl ∧ ∀ d, ri.allocated d = sumMasked o.decl d (assignedTo (survivors h).2 o.rid) := by
+  intro o ho
+  have i := repr_rebuild (survivors_deliverable h wf hR hP)
+  obtain ⟨ri, hg, hn, hc, hd, ha⟩ := repr_allocated_eq_sum i (o := o) (by simpa using hR.mem_iff.mpr ho)
+  refine ⟨ri, hg, hn, hc, hd, fun d => ?_⟩
+  rw [ha d]
+  exact sumMasked_perm (assignedTo_perm ((List.reverse_perm P).trans hP) o.rid)
+
+/-- the same ledger equation on the LIVE cache (before the restart). -/
+theorem live_allocated_eq_sum (h : List Ev) (wf : wfHist h = true) :
+    ∀ o ∈ (survivors h).1, ∃ ri, (live h).get o.rid = some ri ∧ ri.node = o.node ∧ ri.once = o.once ∧
+      ri.decl = o.decl ∧ ∀ d, ri.allocated d = sumMasked o.decl d (assignedTo (survivors h).2 o.rid) := by
+  intro o ho
+  obtain ⟨ri, hg, hn, hc, hd, ha⟩ := repr_allocated_eq_sum (repr_live h wf) (o := o) ho
+  refine ⟨ri, hg, hn, hc, hd, fun d => ?_⟩
+  rw [ha d]
+  have : assignedTo (objsOf h).pods o.rid = assignedTo (survivors h).2 o.rid := by
+    simp only [assignedTo, survivors, List.filter_filter]
+    congr 1
+    apply List.filter_congr
+    intro p _
+    cases ht : p.term <;> cases hr : p.rid <;> simp [assignedAlive, hr, ht]
+  rw [this]
+
+
+/-! ### interleaved delivery: the exact order hypothesis -/
+
+/-- one delivery to the fresh scheduler: a Reservation add event or a pod add event. -/
+inductive Dlv where
+  | resv (o : RObj)
+  | pod (p : Pod)
+
+def deliver (c : Cache) : Dlv → Cache
+  | .resv o => c.updateReservation o.rid o.node o.once o.decl
+  | .pod p => handlerUpdate c none p
+
+/-- the cache a fresh scheduler builds from an arbitrary interleaving of Reservation and pod add events. -/
+def rebuildSeq (l : List Dlv) : Cache := l.foldl deliver {}
+
+def resvsOf : List Dlv → List RObj
+  | [] => []
+  | .resv o :: t => o :: resvsOf t
+  | .pod _ :: t => resvsOf t
+
+def podsOf : List Dlv → List Pod
+  | [] => []
+  | .resv _ :: t => podsOf t
+  | .pod p :: t => p :: podsOf t
+
+/-- **the order hypothesis** (decidable): every Reservation is delivered before the pods assigned to it —
+when a pod annotated with reservation `r` is delivered, `r` has already been delivered. -/
+def resvFirstFrom (seen : List Nat) : List Dlv → Bool
+  | [] => true
+  | .resv o :: t => resvFirstFrom (o.rid :: seen) t
+  | .pod p :: t => (match p.rid with
+      | some r => seen.contains r
+      | none => true) && resvFirstFrom seen t
+
+def resvFirst (l : List Dlv) : Bool := resvFirstFrom [] l
+
+theorem deliverSeq_repr (l : List Dlv) : ∀ {c : Cache} {s : Objs} (seen : List Nat), Repr c s →
+    (resvsOf l).Pairwise (fun a b => a.rid ≠ b.rid) → (∀ o ∈ resvsOf l, ∀ x ∈ s.resvs, x.rid ≠ o.rid) →
+    (podsOf l).Pairwise (fun a b => a.pid ≠ b.pid) → (∀ p ∈ podsOf l, ∀ x ∈ s.pods, x.pid ≠ p.pid) →
+    (∀ p ∈ podsOf l, p.term = false ∧ ∃ r, p.rid = some r) →
+    resvFirstFrom seen l = true → (∀ r ∈ seen, ∃ o ∈ s.resvs, o.rid = r) →
+    Repr (l.foldl deliver c) { resvs := (resvsOf l).reverse ++ s.resvs, pods := (podsOf l).reverse ++ s.pods } := by
+  induction l with
+  | nil => intro c s seen i _ _ _ _ _ _ _; simpa [resvsOf, podsOf] using i
+  | cons e t ih =>
+    intro c s seen i hRpw hRne hPpw hPne hal hord hseen
+    cases e with
+    | resv o =>
+      simp only [resvsOf, podsOf] at hRpw hRne hPpw hPne hal ⊢
+      simp only [resvFirstFrom] at hord
+      obtain ⟨ho, ht⟩ := List.pairwise_cons.mp hRpw
+      have i1 := repr_resv i o (fun x hx e => absurd e (hRne o (by simp) x hx))
+      have hup : upsertR s.resvs o = o :: s.resvs := by
+        unfold upsertR
+        rw [List.filter_eq_self.mpr]
+        intro x hx; simpa using hRne o (by simp) x hx
+      rw [hup] at i1
+      have i2 := ih (o.rid :: seen) i1 ht (by
+        intro o' ho' x hx
+        rcases List.mem_cons.mp hx with hx | hx
+        · subst hx; exact ho o' ho'
+        · exact hRne o' (List.mem_cons_of_mem _ ho') x hx) hPpw hPne hal hord (by
+        intro r hr
+        rcases List.mem_cons.mp hr with hr | hr
+        · exact ⟨o, by simp, hr.symm⟩
+        · obtain ⟨x, hx, hxr⟩ := hseen r hr
+          exact ⟨x, List.mem_cons_of_mem _ hx, hxr⟩)
+      simpa [deliver] using i2
+    | pod p =>
+      simp only [resvsOf, podsOf] at hRpw hRne hPpw hPne hal ⊢
+      simp only [resvFirstFrom, Bool.and_eq_true] at hord
+      obtain ⟨hp, ht⟩ := List.pairwise_cons.mp hPpw
+      obtain ⟨hterm, r, hr⟩ := hal p (by simp)
+      have hk : ∃ o ∈ s.resvs, o.rid = r := by
+        have := hord.1; rw [hr] at this
+        exact hseen r (by simpa using this)
+      have i1 := repr_add i p r (hPne p (by simp)) hterm hr hk
+      rw [← handlerUpdate_add c hterm hr] at i1
+      have i2 := ih seen i1 hRpw hRne ht (by
+        intro p' hp' x hx
+        rcases List.mem_cons.mp hx with hx | hx
+        · subst hx; exact hp p' hp'
+        · exact hPne p' (List.mem_cons_of_mem _ hp') x hx)
+        (fun p' hp' => hal p' (List.mem_cons_of_mem _ hp')) hord.2 hseen
+      simpa [deliver] using i2
+
+/-- **cache_rebuilt_eq_live_interleaved** — `cache_rebuilt_eq_live` for ANY interleaving `l` of the add
+events of the surviving Reservations and the surviving pod assignments that satisfies the order
+hypothesis `resvFirst l` (every Reservation delivered before the pods assigned to it).
+Without `resvFirst` the statement is false: Props/C19.lean `rsv_early_pod_lost_counterexample`. -/
+theorem cache_rebuilt_eq_live_interleaved (h : List Ev) (wf : wfHist h = true) (l : List Dlv)
+    (hR : (resvsOf l).Perm (survivors h).1) (hP : (podsOf l).Perm (survivors h).2)
+    (ord : resvFirst l = true) : CacheEq (live h) (rebuildSeq l) := by
+  have i₁ := repr_live h wf
+  have dl := survivors_deliverable h wf hR hP
+  have i₂ := deliverSeq_repr l (c := {}) (s := {}) [] repr_empty dl.resvPw (by intro o _ x hx; cases hx)
+    dl.podsPw (by intro p _ x hx; cases hx)
+    (fun p hp => by obtain ⟨ht, r, hr, _⟩ := dl.alive p hp; exact ⟨ht, r, hr⟩) ord (by intro r hr; cases hr)
+  refine repr_cacheEq i₁ i₂ ?_ ?_
+  · intro o
+    simp only [List.append_nil, List.mem_reverse]
+    exact hR.mem_iff.symm
+  · intro p hp
+    simp only [List.append_nil, List.mem_reverse]
+    rw [hP.mem_iff]
+    simp [survivors, hp]
+
+
+/-! ### the list model of the ReservationInfo map never holds two entries for one UID
+(so `Cache.get` observes every entry and `CacheEq` is about the whole map) -/
+
+def NodupRids (c : Cache) : Prop := (c.infos.map (·.rid)).Nodup
+
+theorem put_nodupRids {c : Cache} (ri : Info) (h : NodupRids c) : NodupRids (c.put ri) := by
+  unfold NodupRids Cache.put at *
+  split
+  · have : (c.infos.map (fun i => if i.rid == ri.rid then ri else i)).map (·.rid) = c.infos.map (·.rid) := by
+      rw [List.map_map]
+      apply List.map_congr_left
+      intro i _
+      by_cases e : i.rid = ri.rid <;> simp [e]
+    simp only [this]; exact h
+  · rename_i hn
+    simp only [List.map_cons]
+    refine List.nodup_cons.mpr ⟨?_, h⟩
+    intro hin
+    obtain ⟨x, hx, hxr⟩ := List.mem_map.mp hin
+    have hnone : c.get ri.rid = none := by simpa using hn
+    have := List.find?_eq_none.mp hnone x hx
+    simp [hxr] at this
+
+theorem updCore_nodupRids {c : Cache} (ri : Info) (node rid : Nat) (h : NodupRids c) :
+    NodupRids (updCore c ri node rid) := by
+  have : (updCore c ri node rid).infos = (c.put ri).infos := by unfold updCore; simp only; split <;> rfl
+  unfold NodupRids; rw [this]; exact put_nodupRids ri h
+
+theorem updateReservation_nodupRids {c : Cache} (rid node : Nat) (once : Bool) (decl : Req) (h : NodupRids c) :
+    NodupRids (c.updateReservation rid node once decl) := by
+  cases hg : c.get rid with
+  | none => rw [updateReservation_none _ _ _ hg]; exact updCore_nodupRids _ _ _ h
+  | some ri => rw [updateReservation_some _ _ _ hg]; exact updCore_nodupRids _ _ _ h
+
+theorem addPod_nodupRids {c : Cache} (r pid : Nat) (q : Req) (h : NodupRids c) :
+    NodupRids ((c.addPod r pid q).getD c) := by
+  unfold Cache.addPod
+  cases hg : c.get r with
+  | none => simpa using h
+  | some ri =>
+    simp only [Option.getD_some]
+    have := put_nodupRids (addAssigned ri pid q) h
+    split <;> exact this
+
+theorem delPod_nodupRids {c : Cache} (r pid : Nat) (h : NodupRids c) : NodupRids (c.delPod r pid) := by
+  unfold Cache.delPod
+  cases hg : c.get r with
+  | none => simpa using h
+  | some ri =>
+    simp only
+    have := put_nodupRids (removeAssigned ri pid) h
+    split <;> exact this
+
+theorem handlerDelete_nodupRids {c : Cache} (p : Pod) (h : NodupRids c) : NodupRids (handlerDelete c p) := by
+  unfold handlerDelete
+  split
+  · exact delPod_nodupRids _ _ h
+  · exact h
+
+theorem handlerUpdate_nodupRids {c : Cache} (old : Option Pod) (new : Pod) (h : NodupRids c) :
+    NodupRids (handlerUpdate c old new) := by
+  rcases old with _ | o
+  · cases hterm : new.term <;> cases hr : new.rid <;> simp [handlerUpdate, handlerDelete, hterm, hr] <;>
+      first
+      | exact h
+      | exact addPod_nodupRids _ _ _ h
+      | exact delPod_nodupRids _ _ h
+  · cases hterm : new.term <;> cases hr : new.rid <;> cases hor : o.rid <;>
+      simp [handlerUpdate, handlerDelete, hterm, hr, hor] <;>
+      first
+      | exact h
+      | exact addPod_nodupRids _ _ _ (delPod_nodupRids _ _ h)
+      | exact addPod_nodupRids _ _ _ h
+      | exact delPod_nodupRids _ _ h
+
+theorem runFrom_nodupRids (h : List Ev) : ∀ {c : Cache} (s : Objs), NodupRids c → NodupRids (runFrom c s h).1 := by
+  induction h with
+  | nil => intro c s hc; exact hc
+  | cons e t ih =>
+    intro c s hc
+    refine ih _ ?_
+    cases e with
+    | resv o => exact updateReservation_nodupRids _ _ _ _ hc
+    | pod p => exact handlerUpdate_nodupRids _ _ hc
+    | del pid =>
+      simp only [Cache.step]
+      split
+      · exact handlerDelete_nodupRids _ hc
+      · exact hc
+
+theorem nodupRids_empty : NodupRids {} := by simp [NodupRids]
+
+/-- for every history (no hypothesis) the live map has one entry per Reservation UID. -/
+theorem live_nodupRids (h : List Ev) : NodupRids (live h) := runFrom_nodupRids h _ nodupRids_empty
+
+theorem rebuildSeq_nodupRids (l : List Dlv) : NodupRids (rebuildSeq l) := by
+  unfold rebuildSeq
+  suffices ∀ c, NodupRids c → NodupRids (l.foldl deliver c) from this _ nodupRids_empty
+  induction l with
+  | nil => intro c hc; exact hc
+  | cons e t ih =>
+    intro c hc
+    refine ih _ ?_
+    cases e with
+    | resv o => exact updateReservation_nodupRids _ _ _ _ hc
+    | pod p => exact handlerUpdate_nodupRids _ _ hc
+
+theorem rebuild_eq_rebuildSeq (R : List RObj) (P : List Pod) :
+    rebuild R P = rebuildSeq (R.map Dlv.resv ++ P.map Dlv.pod) := by
+  simp [rebuild, rebuildSeq, List.foldl_append, List.foldl_map, deliver]
+
+theorem rebuild_nodupRids (R : List RObj) (P : List Pod) : NodupRids (rebuild R P) := by
+  rw [rebuild_eq_rebuildSeq]; exact rebuildSeq_nodupRids _
+
+/-! ### the scheduler's own assume (plugin.go Reserve → cache.assumePods) -/
+
+theorem OptInfoEq.refl (a : Option Info) : OptInfoEq a a := by
+  cases a with
+  | none => trivial
+  | some i => exact ⟨rfl, rfl, rfl, rfl, fun _ => rfl, List.Perm.refl _⟩
+
+/-- In a history the cache effect of an assignment happens at the event `.pod p` whose stored old version
+is unannotated (the informer's "bound" event): `handlerUpdate c (some unannotated) p = addPod`.  The real
+scheduler performs exactly this `addPod` earlier, in Reserve (assumePods), and then receives the bound
+event; that event is then a no-op on the whole cache (AddAssignedPod's guard), so histories with
+Reserve + bound event and histories with the bound event alone reach `CacheEq` caches. -/
+theorem assume_then_bound_noop (c c' : Cache) (p : Pod) (r : Nat) (ht : p.term = false) (hr : p.rid = some r)
+    (hc' : c.addPod r p.pid p.q = some c') :
+    handlerUpdate c (some { p with rid := none }) p = c' ∧
+    CacheEq (handlerUpdate c' (some { p with rid := none }) p) c' := by
+  have e1 : ∀ c0 : Cache, handlerUpdate c0 (some { p with rid := none }) p = (c0.addPod r p.pid p.q).getD c0 := by
+    intro c0; simp [handlerUpdate, ht, hr]
+  refine ⟨by rw [e1, hc']; rfl, ?_⟩
+  rw [e1]
+  cases hg : c.get r with
+  | none => rw [addPod_none _ _ hg] at hc'; cases hc'
+  | some ri =>
+    obtain ⟨c1, h1, sg1, sn1, sa1⟩ := addPod_spec p.pid p.q hg
+    rw [hc'] at h1; cases h1
+    have hg' : c'.get r = some (addAssigned ri p.pid p.q) := by rw [sg1]; simp
+    obtain ⟨c2, h2, sg2, sn2, sa2⟩ := addPod_spec p.pid p.q hg'
+    rw [h2]; simp only [Option.getD_some]
+    have hdup := dup_add_noop ri p.pid p.q p.q
+    refine ⟨fun r' => ?_, fun x => ?_, fun x => ?_⟩
+    · rw [sg2, hdup]
+      by_cases e : r = r'
+      · subst e; rw [if_pos rfl, hg']; exact OptInfoEq.refl _
+      · rw [if_neg e]; exact OptInfoEq.refl _
+    · rw [sn2]
+    · rw [sa2, hdup]
+      simp only [addAssigned_node, addAssigned_once]
+      have := sa1 x
+      grind
+
+/-! ### the hypotheses are satisfiable on a non-trivial history; each clause of `wfHist` is needed -/
+
+deriving instance DecidableEq for RObj
+deriving instance DecidableEq for Pod
+
+def exR1 : RObj := { rid := 1, node := 1, once := false, decl := [8000, 64, -1] }
+def exR2 : RObj := { rid := 2, node := 2, once := true, decl := [4000, -1, 8] }
+def mkPod (pid : Nat) (rid : Option Nat) (q : Req) (term : Bool := false) : Pod := { pid, rid, q, term }
+
+/-- 2 reservations on 2 nodes, 4 pods: pod 1 assigned to r1 and later re-assigned to r2; pod 2 created
+unannotated, bound to r1, updated with the same assignment, finally deleted; pod 3 on the allocate-once
+r2, terminated and deleted; a Reservation update in between; pod 4 assigned to r1 and surviving. -/
+def exHistC : List Ev :=
+  [.resv exR1, .pod (mkPod 1 (some 1) [1000, 5, 1]), .resv exR2, .pod (mkPod 2 none [500, 1, 1]),
+   .pod (mkPod 2 (some 1) [500, 1, 1]), .pod (mkPod 3 (some 2) [250, 7, 2]), .resv exR1,
+   .pod (mkPod 2 (some 1) [500, 1, 1]), .pod (mkPod 3 (some 2) [250, 7, 2] true), .del 3,
+   .pod (mkPod 1 (some 2) [1000, 5, 1]), .pod (mkPod 4 (some 1) [100, 0, 3]), .del 2]
+
+example : wfHist exHistC = true := by decide
+
+example : survivors exHistC = ([exR1, exR2], [mkPod 4 (some 1) [100, 0, 3], mkPod 1 (some 2) [1000, 5, 1]]) := by
+  decide
+
+example : resvFirst [.resv exR2, .pod (mkPod 1 (some 2) [1000, 5, 1]), .resv exR1, .pod (mkPod 4 (some 1) [100, 0, 3])]
+    = true := by decide
+
+-- the live cache and the rebuilt cache of the example, observed: Allocated per reservation and the indexes
+example : ((live exHistC).get 1).map (fun i => ((List.range 3).map i.allocated, keys i)) = some ([100, 0, 0], [4]) ∧
+    ((live exHistC).get 2).map (fun i => ((List.range 3).map i.allocated, keys i)) = some ([1000, 0, 1], [1]) ∧
+    (live exHistC).allocOn = [(1, 1)] ∧ (live exHistC).onNode = [(2, 2), (1, 1)] := by decide
+
+example : ((rebuild [exR2, exR1] [mkPod 1 (some 2) [1000, 5, 1], mkPod 4 (some 1) [100, 0, 3]]).get 1).map
+      (fun i => ((List.range 3).map i.allocated, keys i)) = some ([100, 0, 0], [4]) ∧
+    ((rebuild [exR2, exR1] [mkPod 1 (some 2) [1000, 5, 1], mkPod 4 (some 1) [100, 0, 3]]).get 2).map
+      (fun i => ((List.range 3).map i.allocated, keys i)) = some ([1000, 0, 1], [1]) ∧
+    (rebuild [exR2, exR1] [mkPod 1 (some 2) [1000, 5, 1], mkPod 4 (some 1) [100, 0, 3]]).allocOn = [(1, 1)] := by
+  decide
+
+/-- clause 1 of `okEv` is needed (model limitation, `updateInfo` is "same spec"): a Reservation update
+that changes the node leaves the live ReservationInfo / reservationsOnNode with the first node. -/
+theorem cache_rebuilt_eq_live_needs_same_spec_counterexample :
+    let h : List Ev := [.resv exR1, .resv { exR1 with node := 2 }]
+    wfHist h = false ∧ ¬ CacheEq (live h) (rebuild (survivors h).1 (survivors h).2) := by
+  refine ⟨by decide, fun e => ?_⟩
+  have := e.onNode (1, 1)
+  revert this; decide
+
+/-- clause 2 of `okEv` is needed: a pod annotated with a Reservation the LIVE cache has not seen yet is
+dropped by the live cache as well (the live face of C19:rsv-early-pod-lost); the rebuild, which delivers
+Reservations first, accounts it. -/
+theorem cache_rebuilt_eq_live_needs_known_resv_counterexample :
+    let h : List Ev := [.pod (mkPod 1 (some 1) [1000, 5, 1]), .resv exR1]
+    wfHist h = false ∧ ¬ CacheEq (live h) (rebuild (survivors h).1 (survivors h).2) := by
+  refine ⟨by decide, fun e => ?_⟩
+  have := e.allocOn (1, 1)
+  revert this; decide
+
+/-- clause 3 of `okEv` is needed: updatePod handles a terminated pod by deletePod(newPod), i.e. by the NEW
+annotation; a terminating update that also changes the annotation leaves the pod accounted in the old
+reservation of the live cache although no surviving object justifies it. -/
+theorem cache_rebuilt_eq_live_needs_term_same_annotation_counterexample :
+    let h : List Ev := [.resv exR1, .resv exR2, .pod (mkPod 1 (some 1) [1000, 5, 1]),
+      .pod (mkPod 1 (some 2) [1000, 5, 1] true)]
+    wfHist h = false ∧ ¬ CacheEq (live h) (rebuild (survivors h).1 (survivors h).2) := by
+  refine ⟨by decide, fun e => ?_⟩
+  have := e.allocOn (1, 1)
+  revert this; decide
+
 end KoordVerif.C19.Rsv
